@@ -100,6 +100,18 @@ func usage() {
 	os.Exit(2)
 }
 
+// buildDir is where generated files and binaries go: /verif/build for /repo,
+// a separate directory per alternative repository root (mutation testing with
+// VERIF_REPO) so that concurrent runs do not share instrumented sources,
+// overlays or binaries.
+func buildDir() string {
+	if repoRoot == "/repo" {
+		return filepath.Join(verifRoot, "build")
+	}
+	h := md5.Sum([]byte(repoRoot))
+	return filepath.Join(verifRoot, "build", fmt.Sprintf("alt-%x", h[:4]))
+}
+
 func goEnv() []string {
 	env := os.Environ()
 	set := func(k, v string) {
@@ -115,7 +127,7 @@ func goEnv() []string {
 	set("GOPROXY", "off")
 	set("GOSUMDB", "off")
 	set("GOTOOLCHAIN", "local")
-	set("CGO_LDFLAGS", "-L"+filepath.Join(verifRoot, "build", "lib"))
+	set("CGO_LDFLAGS", "-L"+filepath.Join(buildDir(), "lib"))
 	set("VERIF_ROOT", verifRoot)
 	set("VERIF_REPO", repoRoot)
 	return env
@@ -160,13 +172,18 @@ func writeOverlay() error {
 		repl[filepath.Join(repoRoot, "internal/verifkit/porcupine", f)] = filepath.Join(pdir, f)
 	}
 	// instrumented unix_volume.go, if it has been generated
-	instr := filepath.Join(verifRoot, "build", "instr", "unix_volume.go")
+	instr := filepath.Join(buildDir(), "instr", "unix_volume.go")
 	if _, err := os.Stat(instr); err == nil {
 		repl[filepath.Join(repoRoot, "services/keepstore/unix_volume.go")] = instr
 	}
-	os.MkdirAll(filepath.Join(verifRoot, "build"), 0755)
+	os.MkdirAll(buildDir(), 0755)
 	b, _ := json.MarshalIndent(map[string]interface{}{"Replace": repl}, "", " ")
-	return os.WriteFile(filepath.Join(verifRoot, "build", "overlay.json"), b, 0644)
+	ov := filepath.Join(buildDir(), "overlay.json")
+	tmp := fmt.Sprintf("%s.%d.tmp", ov, os.Getpid())
+	if err := os.WriteFile(tmp, b, 0644); err != nil {
+		return err
+	}
+	return os.Rename(tmp, ov)
 }
 
 var modCacheOnce sync.Once
@@ -188,7 +205,7 @@ func modCache() string {
 }
 
 func ensureLibpam() error {
-	dir := filepath.Join(verifRoot, "build", "lib")
+	dir := filepath.Join(buildDir(), "lib")
 	os.MkdirAll(dir, 0755)
 	lib := filepath.Join(dir, "libpam.a")
 	if _, err := os.Stat(lib); err == nil {
@@ -199,23 +216,36 @@ func ensureLibpam() error {
 }
 
 func instrument() error {
-	out := filepath.Join(verifRoot, "build", "instr", "unix_volume.go")
+	out := filepath.Join(buildDir(), "instr", "unix_volume.go")
 	os.MkdirAll(filepath.Dir(out), 0755)
-	bin := filepath.Join(verifRoot, "build", "bin", "vinstr")
-	if _, err := os.Stat(bin); err != nil {
-		cmd := exec.Command("go", "build", "-o", bin, "./cmd/vinstr")
+	bin := filepath.Join(buildDir(), "bin", "vinstr")
+	{
+		tmpbin := bin + fmt.Sprintf(".%d", os.Getpid())
+		cmd := exec.Command("go", "build", "-o", tmpbin, "./cmd/vinstr")
 		cmd.Dir = verifRoot
 		cmd.Env = goEnv()
 		if b, err := cmd.CombinedOutput(); err != nil {
 			return fmt.Errorf("build vinstr: %v\n%s", err, b)
 		}
+		if err := os.Rename(tmpbin, bin); err != nil {
+			return err
+		}
 	}
-	cmd := exec.Command(bin, filepath.Join(repoRoot, "services/keepstore/unix_volume.go"), out)
+	tmp := fmt.Sprintf("%s.%d.tmp", out, os.Getpid())
+	cmd := exec.Command(bin, filepath.Join(repoRoot, "services/keepstore/unix_volume.go"), tmp)
 	if b, err := cmd.CombinedOutput(); err != nil {
+		os.Remove(tmp)
 		os.Remove(out)
 		return fmt.Errorf("vinstr: %v\n%s", err, b)
 	}
-	return nil
+	// keep the old file (and its mtime) if nothing changed
+	if ob, err := os.ReadFile(out); err == nil {
+		if nb, err := os.ReadFile(tmp); err == nil && bytes.Equal(ob, nb) {
+			os.Remove(tmp)
+			return nil
+		}
+	}
+	return os.Rename(tmp, out)
 }
 
 func binName(p pkgSpec) string {
@@ -223,7 +253,7 @@ func binName(p pkgSpec) string {
 	if p.Race {
 		n += ".race"
 	}
-	return filepath.Join(verifRoot, "build", "bin", n+".test")
+	return filepath.Join(buildDir(), "bin", n+".test")
 }
 
 var buildMu sync.Mutex
@@ -236,7 +266,7 @@ func buildPkg(p pkgSpec) error {
 	if err, ok := built[key]; ok {
 		return err
 	}
-	args := []string{"test", "-c", "-vet=off", "-tags", "verif", "-overlay", filepath.Join(verifRoot, "build", "overlay.json")}
+	args := []string{"test", "-c", "-vet=off", "-tags", "verif", "-overlay", filepath.Join(buildDir(), "overlay.json")}
 	if p.Race {
 		args = append(args, "-race")
 	}
@@ -253,14 +283,16 @@ func buildPkg(p pkgSpec) error {
 }
 
 func prepare(needInstr bool) error {
-	os.MkdirAll(filepath.Join(verifRoot, "build", "bin"), 0755)
+	os.MkdirAll(filepath.Join(buildDir(), "bin"), 0755)
 	if err := ensureLibpam(); err != nil {
 		return err
 	}
-	if needInstr {
-		if err := instrument(); err != nil {
-			return err
-		}
+	// always regenerate: every keepstore harness build uses the instrumented
+	// copy (the points are no-ops without a hook), and it must reflect the
+	// working tree as it is now
+	_ = needInstr
+	if err := instrument(); err != nil {
+		return err
 	}
 	return writeOverlay()
 }
@@ -640,7 +672,7 @@ func runCheck(id, tier, only string) int {
 			return fail("harness build failed (cannot decide): " + err.Error())
 		}
 	}
-	outDir, err := os.MkdirTemp(filepath.Join(verifRoot, "build"), "run-"+id+"-")
+	outDir, err := os.MkdirTemp(buildDir(), "run-"+id+"-")
 	if err != nil {
 		return fail(err.Error())
 	}
